@@ -212,6 +212,8 @@ def check_c01(out, tier):
     run_and_judge(out, general_cases(rnd, 260 * k, "c01g"), ["C01"], mine)
     run_and_judge(out, general_cases(rnd, 60 * k, "c01or", ors=True, targets=False), ["C01"], mine)
     pinned_cases(out, "C01", ["C01"], mine)
+    from harness import suite_traces
+    suite_traces.judge_suite(out, ["C01"], mine)
     return ("graphs: seeded random general graphs (2-7 subjects, blank nodes, 1-3 classes, multi-typed nodes, mixed "
             "object kinds, 0-3 values) x inference switches x thresholds x target modes (all / classes / shape map) x "
             "report modes x decimals; non-trivial = >= 2 instantiation triples and >= 1 other triple, distinct by "
@@ -233,6 +235,9 @@ def check_c02(out, tier):
     run_and_judge(out, wide, ["C02"], mine, label="wide class, threshold exactly k/n")
     run_and_judge(out, [gen.chain_case(rnd, "c02k%d" % i) for i in range(30 * k)], ["C02"], mine, label="removal cascades")
     pinned_cases(out, "C02", ["C02"], mine)
+    if tier == "thorough":
+        from harness import suite_traces
+        suite_traces.judge_suite(out, ["C02", "C05", "C10"], lambda c: c.startswith(("C02.", "C05.", "C10.")))
     return ("as C01, thresholds on the k/n boundaries {0, 1/3, 1/2, 51/100, 2/3, 1}; remove_empty_shapes on and off; "
             "target classes without instances")
 
@@ -245,6 +250,9 @@ def check_c03(out, tier):
     run_and_judge(out, strict_cases(rnd, 220 * k, "c03s"), ["C03"], mine)
     run_and_judge(out, general_cases(rnd, 80 * k, "c03g", targets=False, reports=False), ["C03"], mine)
     pinned_cases(out, "C03", ["C03"], mine)
+    if tier == "thorough":
+        from harness import suite_traces
+        suite_traces.judge_suite(out, ["C03"], mine)
     if out.notes.get("strict_domain_cases", 0) < 50:
         raise common.Machinery("C03: only %d executions fell in the strict domain: the antecedent was not exercised"
                                % out.notes.get("strict_domain_cases", 0))
